@@ -175,9 +175,9 @@ end
 def wSparseD : List (Nat × Dbl) → List Tok
   | [] => []
   | (i, x) :: l => [.int i, .dbl x, .eol] ++ wSparseD l
-/-- `%d` of an arbitrary `int`: the text formatter negates a negative value in an `int` (`i = -i`), which for
-    INT_MIN overflows and prints `-(` followed by garbage; every other value, and the binary formatter, are fine -/
-def wIntTok (o : Opts) (v : Int) : Tok := if !o.binary && v == -2147483648 then .bad else .int v
+/-- `%d` of an arbitrary `int` (suffix values): since f881e91 the text formatter computes the magnitude in unsigned
+    arithmetic, so every `int` including INT_MIN is printed as itself; the binary formatter writes the 4 bytes -/
+def wIntTok (_o : Opts) (v : Int) : Tok := .int v
 def wSparseI (o : Opts) : List (Nat × Int) → List Tok
   | [] => []
   | (i, v) :: l => [.int i, wIntTok o v, .eol] ++ wSparseI o l
@@ -185,6 +185,7 @@ def wSparseI (o : Opts) : List (Nat × Int) → List Tok
 /-! ## header: `WriteNLHeader` (always text, through `File::Printf`; the comments are always there) -/
 def wH1 (h : Hdr) (o : Opts) : List Tok :=
   [.ch (if o.binary then .fmtB else .fmtG), .int h.nopts] ++ ((h.opts.take h.nopts).map (fun v => Tok.int v) ++
+    -- vbtol is printed with `" %.17g"` since fe95054
     ((if h.opts[1]? = some (3 : Int) then [.vbt h.vbtol] else []) ++ [.cmt ("problem " ++ h.probName), .eol]))
 def wH2 (h : Hdr) : List Tok :=
   [.int h.nv, .int h.nac, .int h.no, .int h.nr, .int h.ne] ++
